@@ -645,3 +645,52 @@ func bpPrintedFrames(o *Out, progs []*Prog, limit int) {
 	}
 	o.Plan.Stats["bp_functions_printed"] = n
 }
+
+// emitLargeCases: functions of hundreds of instructions.  The literal models and the path-based decision
+// procedures are not evaluated on them (too slow inside Coq); instead the live sets the implementation
+// computed serve as a certificate: Coq checks that they are closed under the dataflow inclusions and that
+// the allocation (of the staged run and of the real pass.Compile) puts no definition on storage they say
+// is live (Model/Cert.v, Proofs/SimCert.v), plus the graph, binding, frame-pointer and clean-up validators.
+func emitLargeCases(c *Ctx, progs []*Prog) {
+	o := c.Out
+	var files []string
+	for k, p := range progs {
+		ob := runStaged(p)
+		ec, ea, en, el := runCompile(p)
+		st := ob.Stage
+		if st == "" {
+			st = "ok"
+		} else {
+			st = fmt.Sprintf("%s:%d", st, ob.ErrCode)
+		}
+		idx := o.AddCase(Case{Key: "large:" + p.Desc, Desc: fmt.Sprintf("%s (%d nodes) => %s", p.Desc, len(p.Nodes), st), Input: map[string]any{"prog": p.Desc, "nodes": len(p.Nodes)}, Nontrivial: true})
+		name := fmt.Sprintf("Large%02d.v", k)
+		var b strings.Builder
+		b.WriteString(progHeader + "From Avo Require Import Model.Check.\n")
+		fmt.Fprintf(&b, "Definition cases : list pcase := [(%s,\n   %s)].\n", p.Coq(), ob.Coq())
+		fmt.Fprintf(&b, "Definition e2e : list e2e_t := [(%d, %s, %s, %d)].\n", ec, cPairs(ea), cNodes(en), el)
+		for _, ck := range []struct{ name, expr, desc string }{
+			{"R_large_live_violation", "where_not (fun c => cert_live_ok (snd c)) cases", "the live sets the pipeline computed for a large function are not closed under the dataflow inclusions: a register byte that can still be read is not reported live"},
+			{"R_large_alloc_violation", "where_not (fun c => cert_alloc_ok regs (snd c)) cases", "the allocation of a large function is invalid: unmapped / wrong class / restricted register, or a definition lands on storage that is live after it"},
+			{"R_large_cfg_violation", "where_not cfg_obs_ok cases", "the successors/predecessors computed for a large function are not its control-flow graph"},
+			{"R_large_zext_violation", "where_not (fun c => zext_ok regs (snd c)) cases", "after the 32-bit widening pass an instruction of a large function is not the widening of the instruction before it (another register's 64-bit view, or none)"},
+			{"R_large_bind_violation", "where_not (fun c => bind_ok regs (snd c)) cases", "bound code of a large function is not the substitution instance"},
+			{"R_large_bp_violation", "where_not (fun c => bp_ok regs (fattrs (fst c)) (snd c)) cases", "a large function writes the base pointer but gets no frame"},
+			{"R_large_e2e_violation", "where_not2 e2e_cert_ok cases e2e", "the allocation the real pass.Compile produced for a large function puts a definition on storage that is live after it"},
+			{"R_large_e2e_bp_violation", "where_not2 (e2e_bp_ok regs) cases e2e", "a large function compiled by the real pass.Compile writes the base pointer but has no frame"},
+			{"R_large_e2e_phys_violation", "where_not2 e2e_phys_ok cases e2e", "a large function compiled by the real pass.Compile still contains a virtual register"},
+			{"R_large_e2e_cleanup_violation", "where_not2 e2e_cleanup_ok cases e2e", "the real pass.Compile deleted from a large function something other than a move without architectural effect"},
+		} {
+			fmt.Fprintf(&b, "Definition %s := Eval vm_compute in List.map (N.add %d) (%s).\nPrint %s.\n", ck.name, idx, ck.expr, ck.name)
+			o.ExpectEmpty(name, ck.name, "violation", ck.desc)
+		}
+		// error outcome of the staged run and of the real Compile must agree, and a function that needs more
+		// registers than exist must be refused by both
+		fmt.Fprintf(&b, "Definition R_large_outcome_mismatch := Eval vm_compute in List.map (N.add %d) (where_not2 (fun ce => let '(err, _, _, _) := snd ce in (err =? 0) && (o_stage (snd (fst ce)) =? 0) || negb (err =? 0) && negb (o_stage (snd (fst ce)) =? 0)) cases e2e).\nPrint R_large_outcome_mismatch.\n", idx)
+		o.ExpectEmpty(name, "R_large_outcome_mismatch", "mismatch", "pass.Compile run end to end and the passes run one by one disagree on whether a large function compiles")
+		o.WriteFile(name, b.String())
+		files = append(files, name)
+	}
+	o.Stage(files...)
+	o.Plan.Stats["large_functions"] = len(progs)
+}
